@@ -523,8 +523,8 @@ class Buffer(gpp.UGenParameter, gpp.NodeParameter):
 
         self._path = path
         self._server.addr.send_msg(
-            '/b_read', self._bufnum, path, start_frame, 0, True,
-            self._frames, fn.value(completion_msg, self))
+            '/b_read', self._bufnum, path, start_frame, self._frames,
+            0, True, fn.value(completion_msg, self))
 
     def write(self, path=None, header_format="aiff", sample_format="int24",
               frames=-1, start_frame=0, leave_open=False,
